@@ -269,7 +269,7 @@ func c20Mautil(c *Ctx) {
 	if f := c.Func(pkg, "FindHTTPAddrs"); f != nil && len(f.SSA.AnonFuncs) == 1 {
 		pred := f.SSA.AnonFuncs[0]
 		consts := map[string]bool{}
-		instrs(pred, func(in ssa.Instruction) {
+		instrsDeep(pred, func(_ *ssa.Function, in ssa.Instruction) {
 			if bo, ok := in.(*ssa.BinOp); ok && bo.Op == token.EQL {
 				if x := c.E(bo.X); x.Op == "field" && x.Name == "Code" {
 					consts[c.E(bo.Y).Name] = true
@@ -287,7 +287,7 @@ func c20Mautil(c *Ctx) {
 		// any path with target == nil returns false: the only true-return is under target != nil
 		trueUnderNonNil := true
 		for _, b := range pred.Blocks {
-			if ret, ok := b.Instrs[len(b.Instrs)-1].(*ssa.Return); ok && c.RetX(ret, 0).Name == "true" {
+			if ret, ok := b.Instrs[len(b.Instrs)-1].(*ssa.Return); ok && c.RetX(ret, 0).Name != "false" {
 				if _, g := c.GuardedB(b, EqNil(Op("param", "")), false); !g {
 					trueUnderNonNil = false
 				}
@@ -373,6 +373,27 @@ func c20Mautil(c *Ctx) {
 				if ok {
 					for _, s := range sorts {
 						if !Precedes(s.In, cs.In) {
+							pairwise = false
+						}
+					}
+				}
+			}
+		}
+		// or the standard pairwise comparison after both sorts
+		for _, cs := range c.Calls(f.SSA, CallLike([]string{"slices.EqualFunc"}, a, b)) {
+			if cl := cs.X.Args[2]; cl.Op == "closure" || cl.Op == "func" {
+				var cf *ssa.Function
+				switch v := cl.V.(type) {
+				case *ssa.MakeClosure:
+					cf, _ = v.Fn.(*ssa.Function)
+				case *ssa.Function:
+					cf = v
+				}
+				if cf != nil && len(cf.Params) == 2 {
+					eq := c.Calls(cf, AnyCall("Multiaddr).Equal", Op("param", cf.Params[0].Name()), Op("param", cf.Params[1].Name())))
+					pairwise = len(eq) == 1
+					for _, srt := range sorts {
+						if !Precedes(srt.In, cs.In) {
 							pairwise = false
 						}
 					}
